@@ -294,7 +294,7 @@ def _reverse(specs, vals, i0, i1, seed, honest):
 
 
 def reference_trace(c, in_sel, out_sel, seeds, dx, relative, keep_zero):
-    """[(input position, x0, an reported by the module, true derivative, exact forward difference)] in the order one call per
+    """[(input position, x0, an reported by the module, true derivative, exact forward difference, round-off scale sum|F w|/h)] in the order one call per
     (input, entry in C order, real pass then imaginary pass, output)."""
     specs = c['specs']
     names_in = [n for n, _ in in_sel]
@@ -356,6 +356,7 @@ def reference_trace(c, in_sel, out_sel, seeds, dx, relative, keep_zero):
                         f0, fp = f0[osl], fp[osl]
                     s = np.sum((fp - f0) / (h * dirn) * seeds[k])
                     fd = float(np.real(s)) if dirn == 1.0 else float(np.imag(s))
+                    mag = float(np.sum((np.abs(fp) + np.abs(f0)) * np.abs(seeds[k]))) / h   # scale of the round-off of the difference quotient
                     vals_an = []
                     for sens in (sens_mod[k], sens_true[k]):
                         g = sens.get(name)
@@ -364,7 +365,7 @@ def reference_trace(c, in_sel, out_sel, seeds, dx, relative, keep_zero):
                         else:
                             e = g if not isinstance(g, np.ndarray) else g.reshape(-1)[flat]
                             vals_an.append(float(np.real(e)) if dirn == 1.0 else float(np.imag(e)))
-                    out.append((p, x0, vals_an[0], vals_an[1], fd))
+                    out.append((p, x0, vals_an[0], vals_an[1], fd, mag))
     return out
 
 
@@ -496,16 +497,18 @@ def run_case(case_id, wrong=None, dx_exp=20, relative=False, seedmode='use_df', 
             probs.append(('count', f'{lab}{len(got)} (analytical, numerical) pairs were reported, expected {len(ref)} = one per perturbed entry, direction and output'))
         contiguous = all(not isinstance(c['sources'].get(n), np.ndarray) or c['sources'][n].flags.c_contiguous for n, _ in in_sel)
         unmatched = list(range(len(got)))
-        for j, (p, x0, an_mod, an_true, fd) in enumerate(ref):
+        for j, (p, x0, an_mod, an_true, fd, mag) in enumerate(ref):
+            rnd = 64 * 2.0 ** -52 * mag   # the difference of two O(|F|) numbers divided by h carries a round-off of a few eps*|F|/h unless the arithmetic is exact
+
             def ok(g):
-                return complex(g[0]) == complex(x0) and g[1] == dx and _same(g[2], an_mod) and _same(g[3], fd, tol_fd)
+                return complex(g[0]) == complex(x0) and g[1] == dx and _same(g[2], an_mod) and abs(g[3] - fd) <= tol_fd * max(1.0, abs(fd)) + rnd
             if contiguous:
                 hit = j if j < len(got) and ok(got[j]) else None
             else:   # nditer walks a non-C-contiguous array in memory order: every entry once, any order
                 hit = next((u for u in unmatched if ok(got[u])), None)
             if hit is None:
                 near = got[j] if j < len(got) else None
-                what = 'analytical' if near is not None and not _same(near[2], an_mod) else ('numerical' if near is not None and not _same(near[3], fd, tol_fd) else 'entry')
+                what = 'analytical' if near is not None and not _same(near[2], an_mod) else ('numerical' if near is not None and not abs(near[3] - fd) <= tol_fd * max(1.0, abs(fd)) + rnd else 'entry')
                 probs.append((what, f'{lab}pair {j} (input {in_sel[p][0]}, x0={x0}): reported {near}, expected (x0={x0}, dx={dx}, an={an_mod!r}, fd={fd!r})'))
                 if len(probs) > 6:
                     break
@@ -516,11 +519,12 @@ def run_case(case_id, wrong=None, dx_exp=20, relative=False, seedmode='use_df', 
             # the reported numerical value is the true directional derivative up to O(dx): constant from the exact remainder of the pure function at dx0 = 2^-6
         if not probs:
             ref6 = reference_trace(c, in_sel, out_sel, seeds, 2.0 ** -6, relative, keep_zero)
-            for (p, x0, an_mod, an_true, fd), r6 in zip(ref, ref6):
+            for (p, x0, an_mod, an_true, fd, mag), r6 in zip(ref, ref6):
                 sf = abs(x0) if (relative and abs(x0) != 0) else 1.0
                 K = 2.0 * abs(r6[4] - an_true) / (2.0 ** -6 * sf)
-                g = next(gg for gg in got if complex(gg[0]) == complex(x0) and _same(gg[2], an_mod) and _same(gg[3], fd, tol_fd))
-                slack = 1e-11 + (tol_fd * max(1.0, abs(an_true)) if inexact else 0.0)
+                rnd = 64 * 2.0 ** -52 * mag
+                g = next(gg for gg in got if complex(gg[0]) == complex(x0) and _same(gg[2], an_mod) and abs(gg[3] - fd) <= tol_fd * max(1.0, abs(fd)) + rnd)
+                slack = 1e-11 + rnd + (tol_fd * max(1.0, abs(an_true)) if inexact else 0.0)
                 if not abs(g[3] - an_true) <= K * dx * sf + slack:
                     probs.append(('order', f'{lab}numerical value {g[3]!r} differs from the true derivative {an_true!r} by more than O(dx) (K={K}, dx={dx})'))
                 if wrong is None and not abs(g[2] - g[3]) <= K * dx * sf + slack:
